@@ -46,7 +46,8 @@ ALL_FIELDS = '{"sf", "wb", "ix", "auto"}'
 
 
 def mc_cfg(anchor, thorough):
-    return LC_CFG % ('{"a", "b"}', '{"set"}', '{"small", "replica"}', '{"sf", "auto"}', 2, 2 if thorough and not anchor else 1, 1000000,
+    upd, restarts = (2, 2) if thorough and not anchor else (1, 2) if not anchor else (1, 1)
+    return LC_CFG % ('{"a", "b"}', '{"set"}', '{"small", "replica"}', '{"sf", "auto"}', upd, restarts, 1000000,
                      "TRUE" if anchor else "FALSE", 0, "Spec", INVS, "VIEW MCView")
 
 
@@ -80,11 +81,24 @@ def features(s):
     return f
 
 
+MUST = [("how", "created"), ("how", "startup"), ("how", "reloaded"), ("how", "evicted")]
+
+
+def missing(covered):
+    m = [f for f in MUST if f not in covered]
+    if not any(f[0] == "how" and f[1].endswith("+updated") for f in covered):
+        m.append(("how", "*+updated"))
+    if not any(f[0] == "write-after-promotion" for f in covered):
+        m.append(("write-after-promotion",))
+    return m
+
+
 def select(cands, n):
-    """greedy cover of the features by n schedules; schedules with MaxActiveDatabases = 1 and = default alternate"""
+    """greedy cover of the features by n schedules (a few more when a way of opening a store is still uncovered);
+    schedules with MaxActiveDatabases = 1 and = default alternate"""
     chosen, covered = [], set()
     pool = [(c, features(c)) for c in cands]
-    while len(chosen) < n and pool:
+    while pool and (len(chosen) < n or (missing(covered) and len(chosen) < n + 4)):
         want_cap = len(chosen) % 2
         best = max(pool, key=lambda cf_: (len(cf_[1] - covered) + (0.5 if cf_[0]["cap"] == want_cap else 0), sum(1 for o in cf_[0]["ops"] if o["op"] == "write")))
         pool.remove(best)
@@ -127,9 +141,8 @@ def server_phase(chk, wd, thorough):
             raise MachineryFault("ServerLifecycle simulation printed only %d behaviours" % len(cands))
         scheds, covered = select(cands, nsched)
         hows = set(f[1] for f in covered if f[0] == "how")
-        need = {"created", "startup", "reloaded", "evicted"}
-        if not need <= hows or not any(h.endswith("+updated") for h in hows) or not any(f[0] == "write-after-promotion" for f in covered):
-            raise MachineryFault("the selected schedules do not cover every way a store is opened: %s" % sorted(hows))
+        if missing(covered):
+            raise MachineryFault("the selected schedules do not cover every way a store is opened: missing %s" % missing(covered))
         vlib.log("[C03srv] %d behaviours simulated (%.0fs), %d selected, %d (how-opened x kind) combinations, classes %s"
                  % (len(cands), simwall, len(scheds), sum(1 for f in covered if f[0] == "how-kind"), sorted(hows)))
         binp = f_build.result()
@@ -151,7 +164,8 @@ def server_phase(chk, wd, thorough):
         vlib.log("[C03srv] replay on the real server + crash images: %.0fs" % (time.time() - t0))
         mc, an = f_mc.result(), f_an.result()
     vlib.tlc_must_pass(mc, "ServerLifecycle")
-    chk.add_tlc(mc, "ServerLifecycle (2 user databases, MaxActiveDatabases 100 / 1, 2 updates, %d restart)" % (2 if thorough else 1))
+    chk.add_tlc(mc, "ServerLifecycle (2 user databases, MaxActiveDatabases 100 / 1, %d settings update(s), 2 restarts)" % (2 if thorough else 1))
+    vlib.log("[C03srv] ServerLifecycle model checking: %d distinct states, %.0fs (in parallel)" % (mc.distinct, mc.wall))
     if an.violation != "EffectiveSynced":
         raise MachineryFault("ServerLifecycle anchor (Synced taken from the stored settings): expected a violation of EffectiveSynced, got %s %s" % (an.violation, an.error))
     chk.cov.setdefault("model_facts", {})["server-lifecycle-anchor"] = "SyncedFromStored = TRUE violates EffectiveSynced as expected"
@@ -219,7 +233,10 @@ def server_phase(chk, wd, thorough):
                                "logical_trace_prefix": [json.loads(x) for x in flat[start:item["line"]] if '"Recovered"' not in x][-60:]})
     chk.cov["traces_validated_against_impl"] += len(segs)
     # ---- vacuity guards
-    ctr = chk.cov.get("counters", {})
+    ctr = {}
+    for r, _ in reps:      # this phase's own counters (checks/C03.py folds other harness results into chk.cov too)
+        for k_, v in (r.get("counters") or {}).items():
+            ctr[k_] = ctr.get(k_, 0) + v
 
     def total(prefix, pred=lambda k: True):
         return sum(v for k_, v in ctr.items() if k_.startswith(prefix) and pred(k_[len(prefix):]))
